@@ -67,10 +67,12 @@ AcceptConvTagType(x, y, o) ==
   /\ o.back = x /\ o.val = x /\ o.id_back = x /\ o.id_new = x /\ o.via_id_back = x
   /\ (TagTypeVariant(x) = "Custom" => o.custom_payload = x)
   /\ AllEq(o.eqs, x = y)
+  /\ (Has(o, "nc") => AllEq(o.nc, TRUE))            \* an explicit Custom(x) is numerically x, canonical or not
 AcceptConvMemArea(x, y, o) ==
   /\ o.k = "conv" /\ o.variant = MemAreaVariant(x) /\ o.back = x /\ o.id_back = x
   /\ (MemAreaVariant(x) = "Custom" => o.custom_payload = x)
   /\ AllEq(o.eqs, x = y)
+  /\ (Has(o, "nc") => AllEq(o.nc, TRUE))
 AcceptConvElf(x, o) ==
   IF ElfInUse(x) THEN o.k = "conv" /\ o.class = "used" /\ o.disc = ElfTypeDisc(x)
   ELSE o.k = "conv" /\ o.class = "unused"
